@@ -116,9 +116,9 @@ U("replace_item_in_object", "cjson", "harness/replace_item_in_object.c", enforce
   note="aliasing precondition: the key argument may be the replacement's own key")
 
 # ---------------------------------------------------------------- cJSON.c : containers (skeleton units, children <= K)
-U("parse_array", "cjson", "harness/parse_array.c", tiers=(), enforce="parse_array", shape="S", bound="children <= 3", loops=True, expect_loop_obligations=1,
+U("parse_array", "cjson", "harness/parse_array.c", tiers=(), enforce="parse_array", shape="S", bound="children <= 3",
   props=["C01", "C02", "C03", "C07", "C08", "C14", "C20"], covers=5, defs=["-DVF_CONTAINER_VIEWS"], unwindset=["parse_array.0:4"], bounded_loops=[r"parse_array.*\.unwind\."],
-  replace=["cJSON_New_Item/cJSON_New_Item_cv", "parse_value/parse_value_cv", "cJSON_Delete/cJSON_Delete_chain_cv"], timeout=(900, 3000),
+  replace=["cJSON_New_Item/cJSON_New_Item_cv", "parse_value/parse_value_cv", "cJSON_Delete/cJSON_Delete_chain_cv", "buffer_skip_whitespace/buffer_skip_whitespace_cv"], timeout=(900, 3000),
   note="element values arbitrary (recursive call replaced by its contract); only the element loop is cut at K")
 U("parse_object", "cjson", "harness/parse_object.c", tiers=(), enforce="parse_object", shape="S", bound="members <= 2", loops=True, expect_loop_obligations=1,
   props=["C01", "C02", "C03", "C07", "C08", "C14", "C20"], covers=5, defs=["-DVF_CONTAINER_VIEWS"], unwindset=["parse_object.0:3"], bounded_loops=[r"parse_object.*\.unwind\."],
@@ -131,6 +131,30 @@ U("cJSON_Delete", "cjson", "harness/cJSON_Delete.c", tiers=(), enforce="cJSON_De
 U("parse_string_b", "cjson", "harness/parse_string_b.c", no_contract=True, shape="B", bound="input <= 8 bytes (quick) / 12 (thorough)", funcs=["parse_string", "utf16_literal_to_utf8", "parse_hex4"],
   props=["C01", "C02", "C03", "C08"], covers=3, unwind=14, tdefs={"quick": ["-DPS_N=8"], "thorough": ["-DPS_N=12"]}, tunwind={"quick": 14, "thorough": 18}, timeout=(900, 3000),
   note="all byte strings up to the bound, all truncation points; compared with a reference decoder written from RFC 8259")
-U("print_string_ptr_b", "cjson", "harness/print_string_ptr_b.c", no_contract=True, shape="B", bound="string <= 5 bytes (quick) / 7 (thorough)", funcs=["print_string_ptr", "ensure"],
-  props=["C04", "C05", "C08", "C09"], covers=3, tdefs={"quick": ["-DPSP_N=5"], "thorough": ["-DPSP_N=7"]}, tunwind={"quick": 38, "thorough": 50}, timeout=(900, 3000),
+U("print_string_ptr_b", "cjson", "harness/print_string_ptr_b.c", no_contract=True, shape="B", bound="string <= 4 bytes (quick) / 6 (thorough)", funcs=["print_string_ptr", "ensure"],
+  props=["C04", "C05", "C08", "C09"], covers=3, tdefs={"quick": ["-DPSP_N=4"], "thorough": ["-DPSP_N=6"]}, tunwind={"quick": 32, "thorough": 44}, timeout=(900, 3000),
   note="all byte strings up to the bound, every usable buffer length n; real ensure() in noalloc mode; compared with a reference encoder written from RFC 8259")
+U("minify_b", "cjson", "harness/minify_b.c", no_contract=True, shape="B", bound="buffer <= 8 bytes (quick) / 10 (thorough)", funcs=["cJSON_Minify", "minify_string", "skip_oneline_comment", "skip_multiline_comment"],
+  props=["C13"], covers=3, tdefs={"quick": ["-DMIN_S=8"], "thorough": ["-DMIN_S=10", "-DMIN_IDEMPOTENT"]}, tunwind={"quick": 10, "thorough": 12}, timeout=(900, 3000),
+  note="all zero-terminated byte strings up to the bound; terminator is the last byte of the block")
+
+# ---------------------------------------------------------------- cJSON_Utils.c
+U("u_sort_b_1", "utils", "harness/u_sort_b.c", no_contract=True, shape="B", bound="exactly 1 members, 1-byte keys", funcs=["sort_object", "sort_list", "compare_strings"],
+  props=["C19", "C16", "C17", "C18"], covers=2, defs=["-DSORT_N=1", "-Dh_u_sort_b=h_u_sort_b_1"], unwind=4, tiers=("quick", "thorough"), timeout=(900, 3000),
+  note="plain unwinding of the recursive merge sort; all key multisets over 7-bit bytes, both case modes")
+U("u_sort_b_2", "utils", "harness/u_sort_b.c", no_contract=True, shape="B", bound="exactly 2 members, 1-byte keys", funcs=["sort_object", "sort_list", "compare_strings"],
+  props=["C19", "C16", "C17", "C18"], covers=2, defs=["-DSORT_N=2", "-Dh_u_sort_b=h_u_sort_b_2"], unwind=5, tiers=("quick", "thorough"), timeout=(900, 3000),
+  note="plain unwinding of the recursive merge sort; all key multisets over 7-bit bytes, both case modes")
+U("u_sort_b_3", "utils", "harness/u_sort_b.c", no_contract=True, shape="B", bound="exactly 3 members, 1-byte keys", funcs=["sort_object", "sort_list", "compare_strings"],
+  props=["C19", "C16", "C17", "C18"], covers=2, defs=["-DSORT_N=3", "-Dh_u_sort_b=h_u_sort_b_3"], unwind=6, tiers=("quick", "thorough"), timeout=(900, 3000),
+  note="plain unwinding of the recursive merge sort; all key multisets over 7-bit bytes, both case modes")
+U("u_sort_b_4", "utils", "harness/u_sort_b.c", no_contract=True, shape="B", bound="exactly 4 members, 1-byte keys", funcs=["sort_object", "sort_list", "compare_strings"],
+  props=["C19", "C16", "C17", "C18"], covers=2, defs=["-DSORT_N=4", "-Dh_u_sort_b=h_u_sort_b_4"], unwind=7, tiers=("thorough",), timeout=(900, 3000),
+  note="plain unwinding of the recursive merge sort; all key multisets over 7-bit bytes, both case modes")
+U("u_sort_sorted_3", "utils", "harness/u_sort_b.c", no_contract=True, shape="B", bound="exactly 3 members with strictly increasing keys", funcs=["sort_object", "sort_list"],
+  props=["C19"], covers=1, defs=["-DSORT_N=3", "-DSORT_PRESORTED", "-Dh_u_sort_b=h_u_sort_sorted_3"], unwind=6, timeout=(900, 3000), note="idempotence: a sorted object is left untouched")
+U("u_index_b", "utils", "harness/u_index_b.c", no_contract=True, shape="B", bound="token <= 22 bytes (complete for 64-bit size_t)", funcs=["decode_array_index_from_pointer"],
+  props=["C15", "C16"], covers=3, unwind=25, note="all tokens; complete unwinding (20 digits is the longest index that can fit)")
+U("u_pointer_codec_b", "utils", "harness/u_pointer_codec_b.c", no_contract=True, shape="B", bound="key <= 4 bytes, token <= 8 bytes (quick); 5/10 (thorough)",
+  funcs=["compare_pointers", "pointer_encoded_length", "encode_string_as_pointer", "decode_pointer_inplace"], props=["C15", "C16", "C17"], covers=3,
+  tdefs={"quick": ["-DPC_N=4"], "thorough": ["-DPC_N=5"]}, tunwind={"quick": 12, "thorough": 14}, timeout=(900, 3000))
